@@ -77,6 +77,21 @@ Theorem C07_queued_can_be_accepted :
 Proof. exact queued_can_be_accepted. Qed.
 Print Assumptions C07_queued_can_be_accepted.
 
+(* ... and carried through: in EVERY reachable state (in the middle of a hand-over or not) a
+   request to a served address that has not been answered yet can be completed right away —
+   connect, accept, answer, receive — with the complete response of the site it asked for, by an
+   instance that serves its address; no interleaving leads to a state where a request is stuck. *)
+Theorem C07_request_can_always_complete :
+  forall s k c, reachable s -> nth_error (conns s) k = Some c -> In (caddr c) (addrs_of s (owner s)) ->
+  finished (cst c) = false -> lost (cst c) = false ->
+  exists ls s' i,
+    run s ls = Some s' /\
+    hist s' = EEnd k (Some (i, csite c, true)) :: hist s /\
+    (exists c', nth_error (conns s') k = Some c' /\ cst c' = CDone i) /\
+    In (caddr c) (addrs_of s i) /\ rst s' = rst s /\ cur s' = cur s.
+Proof. exact can_complete. Qed.
+Print Assumptions C07_request_can_always_complete.
+
 (* Never misrouted: a connection is taken by exactly one instance, for good (whatever happens
    afterwards, including that instance being stopped: it still answers), that instance serves
    the connection's address, and it is the instance in force when the request started or a
